@@ -22,8 +22,8 @@ type replayOut struct {
 }
 
 type sx struct {
-	atom string
-	list []*sx
+	atom   string
+	list   []*sx
 	isList bool
 }
 
